@@ -1,6 +1,8 @@
 """C13 - Salamander is transparent, spec-exact, and drops junk (DESIGN.md section 4, C13)."""
 import hashlib
 import json
+import os
+import re
 import sys
 import time
 
@@ -13,7 +15,8 @@ HEADER = ("From Hy Require Import lib.Harness lib.Blake2b model.C13_Salamander m
           "From Coq Require Import ZArith.\nLocal Open Scope N_scope.\n")
 RULE = ("seeded generator over an in-memory PacketConn pair wrapped with WrapPacketConnSalamander: keys of 4..64 bytes (plus 120/121/200-byte "
         "keys that put key||salt on and over the 128-byte BLAKE2b block boundary), payload lengths {1,2,31,32,33,63,64,65,1199,1200,2039,2040}+random, "
-        "oversize/empty writes, caller buffers {2048,1500,64,10,1,0}; junk streams (datagrams of 0..9 bytes, truncated >2048-byte datagrams, "
+        "oversize/empty writes, caller buffers {2048,1500,64,10,1,0} and every reader buffer of payload-1 .. payload+8 bytes (room for the packet but not for "
+        "packet + 8-byte salt) for small, keystream-boundary, MTU-sized and near-2040 payloads, also in random streams and for the concurrent readers; junk streams (datagrams of 0..9 bytes, truncated >2048-byte datagrams, "
         "underlying read/write errors, packets built by a python hashlib reference obfuscator) mixed with valid packets; write-fault histories "
         "(the socket below fails one or several writes, then further valid writes that must reach the wire and arrive unchanged; every call of "
         "the wrapper runs under a real-time watchdog, a call that never returns is a verdict with the case as replay); direct "
@@ -37,6 +40,11 @@ SALT = 8
 HEAD = 16   # leading bytes of every observed byte string compared literally (the rest through the digest)
 BUF = 2048
 BOUNDARY = [1, 2, 31, 32, 33, 63, 64, 65, 1199, 1200, 2039, 2040]
+# reader buffers that hold the payload but not payload + salt: len(p) = payload + k for every k in NEAR_K (k = -1: one short, the packet is
+# dropped as the model says; k = 8: the first size at which salt + payload would fit as well)
+NEAR_K = list(range(-1, SALT + 1))
+NEAR_SMALL = [1, 2, 7, 8, 9, 31, 32, 33, 100]
+NEAR_BIG = [1199, 1200, 1252, 1350, 1444, 1452, 1472, 1492, 1500, 2031, 2032, 2033, 2039, 2040]   # QUIC initial / MTU-ish / udpBufferSize-8
 
 
 # ---------------------------------------------------------------- reference (python) implementation of the specification
@@ -58,6 +66,10 @@ def bs(d):
     if d.get("hex") is not None:
         return bytes.fromhex(d["hex"])
     return common.gen_data(d["a"], d["b"], d["n"])
+
+
+def dlen(d):
+    return len(d["hex"]) // 2 if d.get("hex") is not None else d["n"]
 
 
 def lit(b):
@@ -126,6 +138,32 @@ def stream_case(rng, kernel=True):
     if werrs and not any(it["t"] == "w" and not it["err"] and 1 <= it["d"]["n"] <= 2040 for it in items[werrs[-1] + 1:]) and rng.random() < 0.85:
         items.append(w_item(rng, rng.choice([1, 2, 33, 100, rng.choice(BOUNDARY)])))
     plen = rng.choice([2048, 2048, 2048, 2048, 1500, 2040, 2039, 64, 10, 1, 0, 4096])
+    # a reader buffer within 8 bytes of one of the valid packets of the stream
+    valid = [len(bytes.fromhex(it["exp"])) if it.get("exp") is not None else it["d"]["n"] for it in items
+             if not it["err"] and (it.get("exp") is not None or (it["t"] == "w" and 1 <= it["d"]["n"] <= 2040))]
+    if valid and rng.random() < 0.3:
+        plen = max(0, rng.choice(valid) + rng.choice(NEAR_K))
+    return {"k": "st", "psk": key, "plen": plen, "udp": rng.random() < 0.3, "items": items, "kernel": kernel}
+
+
+def near_case(rng, n, k, kernel=True):
+    """one packet of n payload bytes read into a buffer of n+k bytes (k in NEAR_K), between other traffic: something smaller that must
+    surface too, sometimes something larger than the buffer that must be dropped, sometimes junk"""
+    key = rkey(rng)
+    psk = bs(key)
+    plen = max(n + k, 0)
+    items = []
+    if rng.random() < 0.3:
+        items.append(junk_item(rng))
+    if rng.random() < 0.3 and plen + 1 <= 2040:
+        items.append(w_item(rng, rng.randint(plen + 1, min(plen + 12, 2040))))      # does not fit the reader's buffer: dropped
+    if n <= 200 and rng.random() < 0.4:
+        items.append(ref_item(rng, psk, n))
+    else:
+        items.append(w_item(rng, n))
+    if rng.random() < 0.5:
+        items.append(junk_item(rng))
+    items.append(w_item(rng, rng.randint(1, max(1, min(n, 40)))))
     return {"k": "st", "psk": key, "plen": plen, "udp": rng.random() < 0.3, "items": items, "kernel": kernel}
 
 
@@ -175,6 +213,15 @@ def gen(rng, tier):
         for plen in (n, n - 1):
             cases.append({"k": "st", "psk": rkey(rng), "plen": plen, "udp": False, "kernel": True,
                           "items": [w_item(rng, n), w_item(rng, 1)]})
+    # --- reader buffer = payload + k, k = -1..8 (holds the packet, not packet + salt): every k with a small and a big payload in the
+    #     kernel, every (payload length, k) pair against the Go predicate and the hashlib oracle
+    for _ in range(scale):
+        for k in NEAR_K:
+            cases.append(near_case(rng, rng.choice(NEAR_SMALL), k))
+            cases.append(near_case(rng, rng.choice(NEAR_BIG), k))
+    for n in NEAR_SMALL + NEAR_BIG + [rng.randint(10, 2040) for _ in range(3 * scale)]:
+        for k in NEAR_K:
+            cases.append(near_case(rng, n, k, kernel=False))
     # --- direct Obfuscate / Deobfuscate with short buffers
     for n in (0, 1, 32, 33, 2040):
         for cap in sorted({0, 7, 8, n + 7, n + 8, n + 9, 2048}):
@@ -213,9 +260,12 @@ def gen(rng, tier):
     # (every second one with scripted write faults of the sockets below: every werr-th underlying write fails and the writer retries)
     for j in range(2 if tier == "quick" else 12):
         big = tier != "quick"
+        lens = sorted(set([1, 2, 31, 32, 33, 1200, rng.choice([1452, 2033, 2040])] + [rng.randint(1, 2032) for _ in range(4)]))
+        # every second case: the readers' buffers hold the longest packet sent but not that packet + salt
+        rbuf = lens[-1] + rng.randrange(SALT) if j % 2 == 0 else 2048
         cases.append({"k": "conc", "psk": rkey(rng), "w": rng.choice([2, 3, 4]), "r": rng.choice([1, 2, 3]),
                       "per": rng.choice([150, 400]) if big else rng.choice([25, 40]), "junk": 200 if big else 30,
-                      "lens": sorted(set([1, 2, 31, 32, 33, 1200, 2040] + [rng.randint(1, 2040) for _ in range(4)])), "kernel": False,
+                      "lens": lens, "rbuf": rbuf, "kernel": False,
                       "werr": rng.choice([5, 7, 11, 13]) if j % 2 == 1 else 0})
     # --- many goroutines on one obfuscator (shared key-input buffer and salt source)
     for j in range(2 if tier == "quick" else 6):
@@ -366,7 +416,8 @@ def to_coq(c, o):
             else:
                 items.append("IRaw %s %d %s" % (cb(it["d"]), it["addr"], copt(it["err"])))
         robs = ["mkRO %d %s %d %s" % (r["n"], cobs(bytes.fromhex(r["data"])), r["addr"], copt(r["err"])) for r in (o.get("reads") or [])]
-        cbools = lambda l: "[%s]" % "; ".join("true" if x else "false" for x in (l or []))
+        # lock observations: 0 free, 1 held, 2 not observed (no such field in this tree); older replays carry booleans
+        cbools = lambda l: "[%s]" % "; ".join("None" if (x == 2 and x is not True) else ("Some true" if x else "Some false") for x in (l or []))
         return "CStream %s %d [%s] [%s] [%s] %s %s" % (cb(c["psk"]), c["plen"], "; ".join(items), "; ".join(wobs), "; ".join(robs),
                                                        cbools(o.get("wlocks")), cbools(o.get("rlocks")))
     return None
@@ -389,8 +440,29 @@ def klass(c, o):
     ne = sum(1 for it in c["items"] if it["err"])
     we = [j for j, it in enumerate(c["items"]) if it["t"] == "w" and it["err"]]
     wf = bool(we) and any(it["t"] == "w" and not it["err"] for it in c["items"][we[0] + 1:])
-    return "st%s:%s%s%s%s" % ("" if c.get("kernel") else "-oracle", "junk+" if nj else "", "err+" if ne else "", "wfault-then-write+" if wf else "",
-                             "reads=%d" % min(nr, 3))
+    return "st%s:%s%s%s%s%s" % ("" if c.get("kernel") else "-oracle", "junk+" if nj else "", "err+" if ne else "", "wfault-then-write+" if wf else "",
+                               "rbuf-near-payload+" if near_ks(c) else "", "reads=%d" % min(nr, 3))
+
+
+def valid_lens(c):
+    """payload lengths of the valid packets offered to the reader of a stream case"""
+    out = []
+    for it in c["items"]:
+        if it["err"]:
+            continue
+        if it.get("exp") is not None:
+            out.append(len(it["exp"]) // 2)
+        elif it["t"] == "w" and 1 <= dlen(it["d"]) <= BUF - SALT:
+            out.append(dlen(it["d"]))
+    return out
+
+
+def near_ks(c):
+    """the k in 0..7 for which the reader buffer of a stream case is payload + k for one of its valid packets
+    (the buffer holds the packet, not packet + salt)"""
+    if c["k"] != "st":
+        return set()
+    return {c["plen"] - n for n in valid_lens(c) if 0 <= c["plen"] - n < SALT}
 
 
 def nontrivial(c, o):
@@ -420,10 +492,12 @@ FP_CLASSES = [
     ("Obfuscate output differs", "salamander-wire-format"),
     ("payload changed in transit", "salamander-not-transparent"),
     ("never surfaced", "salamander-packet-lost"),
+    ("was not returned to the caller", "salamander-read-error-swallowed"),
     ("nobody sent", "salamander-not-transparent"),
     ("reference obfuscator", "salamander-not-transparent"),
     ("deobfuscated bytes are not", "salamander-wire-format"),
     ("Deobfuscate output differs", "salamander-wire-format"),
+    ("short read", "salamander-short-read"),
     ("reported", "salamander-count"),
     ("key of", "salamander-key-length"),
     ("refused", "salamander-key-length"),
@@ -500,6 +574,81 @@ def race_violation(log, conc_cases):
             "fingerprint": "salamander-data-race", "found_input": True}
 
 
+LOCK_FIELDS = ("readMutex", "writeMutex")
+CONN_GO = os.path.join("extras", "obfs", "conn.go")
+
+
+def declared_locks():
+    """which of the wrapper's mutex fields the source under test declares (conn.go of VERIF_REPO, or its replacement under
+    VERIF_EXTRA_OVERLAY), read independently of the harness' reflection: {field: bool}, or None if the source cannot be read"""
+    path = os.path.join(common.REPO, CONN_GO)
+    xov = os.environ.get("VERIF_EXTRA_OVERLAY")
+    if xov:
+        try:
+            path = json.load(open(xov)).get("Replace", {}).get(path, path)
+        except Exception:
+            pass
+    try:
+        src = open(path).read()
+    except Exception:
+        return None
+    src = re.sub(r"//[^\n]*", "", src)
+    m = re.search(r"type\s+obfsPacketConn\s+struct\s*\{(.*?)\n\}", src, re.S)
+    if not m:
+        return None
+    body = m.group(1)
+    return {f: bool(re.search(r"^\s*(?:\w+\s*,\s*)*%s(?:\s*,\s*\w+)*\s+sync\.Mutex\s*$" % f, body, re.M)) for f in LOCK_FIELDS}
+
+
+def lock_observation(ctx, cases, outs, violations):
+    """the white-box lock observation is made by field name (reflection): summarise per field whether it was available, object when the
+    source declares a field the harness says it could not observe (the comparison with model/C13_Lock.v must not silently go away), and
+    print a NOTE when an observation the baseline evidence had is gone"""
+    seen = {f: set() for f in LOCK_FIELDS}
+    nobs = {f: [0, 0] for f in LOCK_FIELDS}     # [observed, not observed] lock states
+    for c, o in zip(cases, outs):
+        if c["k"] != "st":
+            continue
+        for f in LOCK_FIELDS:
+            if (o.get("lockobs") or {}).get(f):
+                seen[f].add(o["lockobs"][f])
+        for f, key in (("writeMutex", "wlocks"), ("readMutex", "rlocks")):
+            for x in o.get(key) or []:
+                nobs[f][1 if (x == 2 and x is not True) else 0] += 1
+    decl = declared_locks()
+    summary = {}
+    for f in LOCK_FIELDS:
+        st = "ok" if seen[f] == {"ok"} else ("unavailable (%s)" % ", ".join(sorted(seen[f] - {"ok"})) if seen[f] else "no stream case ran")
+        summary[f] = {"status": st, "observed": nobs[f][0], "not_observed": nobs[f][1],
+                      "declared_in_source": None if decl is None else decl[f]}
+        if decl and decl[f] and (seen[f] != {"ok"} or nobs[f][1]) and seen[f]:
+            violations.append({"what": "tie broken: %s declares %s sync.Mutex in obfsPacketConn but the harness could not observe it (%s; %d lock states "
+                                       "not observed): the comparison with the lock model did not run" % (CONN_GO, f, st, nobs[f][1]),
+                               "replay": {"broken": "lock observation", "field": f, "status": st}, "found_input": False, "fingerprint": None})
+        if st.startswith("unavailable"):
+            ctx.say("NOTE: lock observation of %s is unavailable in this tree (%s): its lock states are not compared with model/C13_Lock.v; "
+                    "the behavioural verdicts and the watchdogs run as usual" % (f, ", ".join(sorted(seen[f] - {"ok"}))))
+    try:
+        base = json.load(open(os.path.join(common.VERIF, "evidence", "C13.json")))["coverage"].get("lock_observation")
+    except Exception:
+        base = None
+    for f in LOCK_FIELDS:
+        was_ok = base is None or (base.get(f) or {}).get("status") == "ok"     # before this record existed the harness only built with both fields
+        if was_ok and summary[f]["status"].startswith("unavailable"):
+            ctx.say("NOTE: lock observation of %s was available in the baseline evidence (evidence/C13.json) and is not in this tree" % f)
+    return summary
+
+
+def near_coverage(cases, outs):
+    """stream cases per k = len(reader buffer) - len(payload) in 0..7 in which at least one read returned"""
+    cov = {str(k): 0 for k in range(SALT)}
+    for c, o in zip(cases, outs):
+        if c["k"] == "st" and (o.get("reads") or []):
+            for k in near_ks(c):
+                cov[str(k)] += 1
+    return cov
+
+
 def run(ctx):
     """common.run_case_check with one more judge: the python hashlib oracle on every case's observations
     (same decision rule), and -race for the Go run in the thorough tier."""
@@ -540,6 +689,7 @@ def run(ctx):
     norc = judge(cases, outs)
     if norc:
         ctx.say("python hashlib oracle objects to %d case(s)" % norc)
+    lockobs = lock_observation(ctx, cases, outs, violations) if outs else {}
     proof_ok, pinfo = common.proof_stage(ctx, ctx.pid, extra_targets=EXTRA_TARGETS)
     if not proof_ok:
         ctx.say("PROOF STAGE BROKEN: " + json.dumps({k: pinfo[k] for k in pinfo if k != "theorems"})[:3000])
@@ -600,7 +750,9 @@ def run(ctx):
            "traces_validated_against_impl": compared, "model_impl_disagreements": len(mism), "input_classes": hist,
            "hashlib_oracle_cases": len(outs), "hashlib_oracle_objections": norc,
            "packets_on_the_wire": sum(len(o.get("writes") or []) + len(o.get("wires0") or []) + len(o.get("wires1") or []) for o in outs),
-           "go_race_detector": "all cases" if ctx.tier != "quick" else "concurrency cases (second run)"}
+           "go_race_detector": "all cases" if ctx.tier != "quick" else "concurrency cases (second run)",
+           "lock_observation": lockobs, "reader_buffer_payload_plus_k_cases": near_coverage(cases, outs),
+           "notes": [l for l in ctx.log if l.startswith("NOTE:")]}
     return common.finish(ctx, pinfo, cov, violations, ASSUMPTIONS, trusted_extra=TRUSTED)
 
 
